@@ -112,9 +112,8 @@ M.contract('xtuml.meta._find_link', [('inst1', INST), ('inst2', INST), ('rel_id'
                     'for j in range(0, len(inst1.__metaclass__.metamodel.associations)))'},
            raises=[Raises('UnknownLinkException', when='not any_match(inst1.__metaclass__.metamodel, inst1, inst2, norm_rel(rel_id), phrase)')],
            modifies=[],
-           loops={0: Loop(inv={'no-earlier-match': 'all(not src_match(_seq[i], inst1, inst2, rel_id, phrase) and not tgt_match(_seq[i], inst1, inst2, rel_id, phrase) for i in range(0, _i))',
-                               'iterates': '_seq == metaclass1.metamodel.associations',
-                               'locals': 'metaclass1 is inst1.__metaclass__ and metaclass2 is inst2.__metaclass__ and rel_id == norm_rel(old(rel_id))'})})
+           loops={0: Loop(inv={'no-earlier-match': 'all(not src_match(_seq[i], inst1, inst2, norm_rel(old(rel_id)), phrase) and not tgt_match(_seq[i], inst1, inst2, norm_rel(old(rel_id)), phrase) for i in range(0, _i))',
+                               'iterates': '_seq == inst1.__metaclass__.metamodel.associations'})})
 
 # ---- relate / unrelate: both directed links change together or not at all
 M.spec('''
